@@ -184,6 +184,25 @@ pub fn check_c17(c: &EncCase, acc: &mut Acc, record: bool) -> Verdict {
                     "FieldMadeOptional on the empty name"
                 }
             };
+            // a name that is added, removed and added again (the metadata meets the same name twice): whatever the
+            // outcome, it is a value or an error
+            if mutation % 8 >= 4 && !added.is_empty() && r.steps.len() < 250 {
+                let name = added[vmodel::gen::pick(sel.wrapping_mul(31), added.len())].clone();
+                if let Some(f) = r.fields.iter().find(|f| f.name == name) {
+                    let dflt = vmodel::declgen::sample_val(&f.ty, ValCfg { max_len: 2, long: false, ..ValCfg::default() }, 5);
+                    let mut re = r.clone();
+                    re.steps.push(Step::Removed { name: name.clone() });
+                    re.steps.push(Step::Added { name, default: dflt });
+                    let ty = Ty::Adt(struct_decl(&format!("DynRe{:08x}", hash_json(c) as u32), &re));
+                    let val = vmodel::declgen::sample_val(&ty, ValCfg { max_len: 2, long: false, ..ValCfg::default() }, *sel as u64);
+                    if record {
+                        acc.bump("declarations_with_a_re_added_name", 1);
+                    }
+                    if let Err(p) = guarded(|| vcat::encode(&ty, &val).0.map(|b| b.len())) {
+                        return Verdict::Fail(format!("encoding a record whose history adds, removes and adds again one name panicked: {p} (steps {:?})", re.steps));
+                    }
+                }
+            }
             if r.steps.len() > 254 {
                 return Verdict::Skip;
             }
@@ -282,6 +301,29 @@ fn known_f19(r: &mut PropResult) {
         let val = Val::Rec((0..n).map(|i| if Some(i) == opt_at { Val::some(Val::Int(1)) } else { Val::Int(i as i128 % 200) }).collect());
         (Ty::Adt(struct_decl(&format!("DynWide{n}"), &Record { fields, steps })), val)
     };
+    // (position 129 and beyond do not unwind on this tree — they are written wrongly, which is F19 too — and must not start to)
+    let (tc, vc) = wide(140, vec![Step::MadeOptional { name: "f129".into() }, Step::MadeOptional { name: "f139".into() }], Some(129));
+    let vc = match vc {
+        Val::Rec(mut fs) => {
+            fs[139] = Val::some(Val::Int(3));
+            Val::Rec(fs)
+        }
+        v => v,
+    };
+    let tc = match &tc {
+        Ty::Adt(d) => match &d.body {
+            vmodel::DeclBody::Struct(r) => {
+                let mut r = r.clone();
+                r.fields[139].ty = Ty::Option(Arc::new(Ty::U8));
+                Ty::Adt(struct_decl("DynWide140", &r))
+            }
+            _ => tc.clone(),
+        },
+        _ => tc.clone(),
+    };
+    if let Err(p) = guarded(|| vcat::encode(&tc, &vc).0.map(|b| b.len())) {
+        r.acc.violation(format!("encoding a record of 140 fields whose 130th and 140th chunk-0 fields were made optional panicked: {p}"), json!({"special": "wide record, positions 129 and 139"}));
+    }
     let (ta, va) = wide(130, vec![Step::MadeOptional { name: "f128".into() }], Some(128));
     let a = guarded(|| vcat::encode(&ta, &va).0.map(|b| b.len()));
     let mut fb: Vec<Field> = (0..257).map(|i| Field::new(&format!("f{i}"), Ty::U8)).collect();
